@@ -1682,3 +1682,46 @@ func pathExistsPS(from, to ssa.Instruction, avoid func(ssa.Instruction) bool) bo
 	budget := 20000
 	return walk(from.Block(), instrIndex(from)+1, map[ssa.Value]bool{}, &budget)
 }
+
+// factRel returns the relation that fact f establishes between a value accepted by isA
+// (left) and one accepted by isB (right): one of "<", "<=", ">", ">=", "==", "!=", or ""
+// when f is not a comparison of such a pair. Operand order and the truth value of the fact
+// are normalised away, so callers never look at BinOp.X/Y/Op themselves.
+func factRel(f Fact, isA, isB func(ssa.Value) bool) string {
+	bo, ok := f.Cond.(*ssa.BinOp)
+	if !ok {
+		return ""
+	}
+	var rel string
+	switch bo.Op {
+	case token.LSS:
+		rel = "<"
+	case token.LEQ:
+		rel = "<="
+	case token.GTR:
+		rel = ">"
+	case token.GEQ:
+		rel = ">="
+	case token.EQL:
+		rel = "=="
+	case token.NEQ:
+		rel = "!="
+	default:
+		return ""
+	}
+	mirror := map[string]string{"<": ">", "<=": ">=", ">": "<", ">=": "<=", "==": "==", "!=": "!="}
+	neg := map[string]string{"<": ">=", "<=": ">", ">": "<=", ">=": "<", "==": "!=", "!=": "=="}
+	switch {
+	case isA(bo.X) && isB(bo.Y):
+	case isA(bo.Y) && isB(bo.X):
+		rel = mirror[rel]
+	default:
+		return ""
+	}
+	if !f.Val {
+		rel = neg[rel]
+	}
+	return rel
+}
+
+func isValue(v ssa.Value) func(ssa.Value) bool { return func(x ssa.Value) bool { return x == v } }
